@@ -250,7 +250,8 @@ func genProg(r *vh.Rng) *Case {
 	return c
 }
 
-var surfaces = []string{"destruct", "destruct_assign", "spread", "spreadcall", "from", "map", "set", "promiseall", "yieldstar", "fromentries", "restdestruct", "yieldstar_catch", "genforof_catch"}
+var surfaces = []string{"destruct", "destruct_assign", "spread", "spreadcall", "from", "map", "set", "promiseall", "yieldstar", "fromentries", "restdestruct", "yieldstar_catch", "genforof_catch",
+	"map_native", "fromentries_native", "weakset_native", "from_native", "gen_outer", "gen_outer_nested"}
 
 func genBuiltin(r *vh.Rng) *Case {
 	g := &gctx{r: r}
@@ -264,6 +265,29 @@ func genBuiltin(r *vh.Rng) *Case {
 		c.Want = r.Intn(4)
 	case "genforof_catch":
 		c.Want = 1 + r.Intn(3)
+	case "map_native", "fromentries_native", "weakset_native", "from_native":
+		// the built-in itself rejects the value at index sj-1 (model: consumer step fails with a TypeError)
+		c.It.Len = 1 + r.Intn(3)
+		c.SJ = 1 + r.Intn(c.It.Len)
+		c.SV = 0
+		c.It.BJ = c.SJ
+		if c.It.TM == 1 && c.It.TJ >= 0 && c.It.TJ < c.SJ-1 {
+			// keep: a throwing value getter before the bad value is a plain step failure
+		}
+	case "gen_outer":
+		// the iterator must deliver the k values the driver asks for
+		c.Want = 1 + r.Intn(2)
+		c.It.Len = c.Want + r.Intn(2)
+		c.It.TJ, c.It.TM = -1, 0
+		c.Thr = r.Chance(35)
+	case "gen_outer_nested":
+		c.Want = 1 + r.Intn(2)
+		c.It.Len = 1 + r.Intn(2)
+		c.It.TJ, c.It.TM = -1, 0
+		c.It2 = g.iter()
+		c.It2.Len = c.Want + r.Intn(2)
+		c.It2.TJ, c.It2.TM = -1, 0
+		c.Thr = r.Chance(35)
 	case "yieldstar", "yieldstar_catch":
 		c.Want = 1 + r.Intn(3)
 		if c.It.TM == 1 {
@@ -279,7 +303,7 @@ func genBuiltin(r *vh.Rng) *Case {
 }
 
 func genCase(r *vh.Rng, i int) *Case {
-	if r.Chance(10) {
+	if r.Chance(14) {
 		return genBuiltin(r)
 	}
 	return genProg(r)
